@@ -228,6 +228,7 @@ func (l *Ledger) Finish(p *Prog, tier string, seed int, start time.Time, verifDi
 	// the check: failing here turned every refactoring of an audited site into an alarm.
 	for _, k := range stale {
 		l.Add(Ob{Rule: "ledger.unused-residue", Key: k, Status: Info, Why: "residue entry matches no unproved site on this tree (the site was proved, moved or rewritten); it suppresses nothing here"})
+		fmt.Printf("NOTE unused residue entry %s\n", k)
 	}
 	counts := map[Status]int{}
 	perRule := map[string]map[Status]int{}
